@@ -1,6 +1,7 @@
 package main
 
 import (
+	"os"
 	"encoding/json"
 	"fmt"
 	goast "go/ast"
@@ -281,6 +282,7 @@ func c10Run(c *Ctx, cs c10Case) {
 	}
 	if out.Err != nil {
 		c.Res.Count("outcome:rejected (not a documented combination)")
+		c10Rejected(cs, out.Err)
 		return
 	}
 	c.Res.Count("outcome:accepted")
@@ -440,6 +442,7 @@ func c10RunVar(c *Ctx, cs c10Case, vr c10Var, fail func(kind, class, what string
 	}
 	if out.Err != nil {
 		c.Res.Count("outcome:rejected (not a documented combination)")
+		c10Rejected(cs, out.Err)
 		return
 	}
 	c.Res.Count("outcome:accepted-variable")
@@ -466,4 +469,18 @@ func c10RunVar(c *Ctx, cs c10Case, vr c10Var, fail func(kind, class, what string
 		fail("mismatch", "variable-omitempty-model", fmt.Sprintf("variable $v: %s: tag json:%q, model omitempty=%v for:\n%s", vr.Decl, im[2], wantOmit, ops.String()), im[2], wantOmit)
 		fail("violation", "documented-omitempty-rule", fmt.Sprintf("tag json:%q of variable v does not follow the documented omitempty rule (expected omitempty=%v) for:\n%s", im[2], wantOmit, ops.String()), im[2], wantOmit)
 	}
+}
+
+// c10Rejected: with HX_C10_REJECTS set, log every rejected combination and the generator's reason (used to write
+// down the applicability table of Model/DirApply.lean)
+func c10Rejected(cs c10Case, err error) {
+	if os.Getenv("HX_C10_REJECTS") == "" {
+		return
+	}
+	b, _ := json.Marshal(cs)
+	msg := err.Error()
+	if i := strings.Index(msg, "\n"); i >= 0 {
+		msg = msg[:i]
+	}
+	fmt.Fprintf(os.Stderr, "C10REJ\t%s\t%s\n", b, msg)
 }
